@@ -34,12 +34,38 @@ def build_menu(w, sc):
     if len(running) > 1:
         m.append(("suspend-many", [(c.container_id, c.pool_id) for c in running]))
         m.append(("suspend-many", [(c.container_id, c.pool_id) for c in running if c.can_suspend_container()] or [(running[0].container_id, running[0].pool_id)]))
+    if getattr(w, "probes_left", False) and getattr(w, "suspension_requested", False):
+        # fill the pool as a scheduler would, trusting the free figures the pool states right now (see probe_fill)
+        m.append(("probe",))
     return m
+
+
+def probe_assignments(w, sc):
+    idx = [i for i, ps in enumerate(sc["pipelines"]) if ps.get("probe")]
+    w.probes_left = False
+    if not idx:
+        return []
+    w.arrive(idx)
+    pool = w.executor.pools[0]
+    share = sc["pipelines"][idx[0]]["alloc"]
+    asg = []
+    free_cpu, free_ram = pool.avail_cpu_pool, pool.avail_ram_pool
+    for i in idx:
+        if free_cpu >= 1 and free_ram >= share:
+            p, ops, ps = w.all_pipes[i]
+            a = w.make_assignment(ops, 1, share, 0)
+            if a is None:
+                return None
+            asg.append(a)
+            free_cpu -= 1
+            free_ram -= share
+    return asg
 
 
 def run(sc, ch, trace=None):
     w = World(sc)
     w.all_index = {p: i for i, (p, _, _) in enumerate(w.all_pipes)}
+    w.probes_left = any(ps.get("probe") for ps in sc["pipelines"])
     try:
         arr = {}
         for i, ps in enumerate(sc["pipelines"]):
@@ -51,7 +77,13 @@ def run(sc, ch, trace=None):
             k = ch.choose(len(menu), t)
             if trace is not None:
                 trace.append(dict(tick=t, command=f1.describe(w, menu[k]), menu_size=len(menu)))
-            got = f1.realize(w, menu[k])
+            if menu[k][0].startswith("suspend"):
+                w.suspension_requested = True
+            if menu[k][0] == "probe":
+                pa = probe_assignments(w, sc)
+                got = None if pa is None else ([], pa)
+            else:
+                got = f1.realize(w, menu[k])
             if got is None or w.ended:
                 break
             w.boundary_checks()
@@ -79,12 +111,34 @@ def run(sc, ch, trace=None):
         # at the horizon everything must have completed unless a rejection ended the run
         if not w.ended and sc.get("expect_all_done") and ch.deviations() <= sc.get("done_within_deviations", 99):
             for p in w.pipelines:
+                if sc["pipelines"][w.all_index[p]].get("probe"):
+                    continue
                 if not p.runtime_status().is_pipeline_successful():
                     w.flag({"C10"}, "work-not-finished-after-suspension",
                            f"{p.pipeline_id}: states {[s.value for s in p.runtime_status().operator_states.values()]} at horizon {sc['horizon']}")
+        if not w.ended:
+            probe_fill(w, sc)
     finally:
         w.close()
     return w
+
+
+def probe_fill(w, sc):
+    """Epilogue: after whatever history the run had, fill pool 0 the way a scheduler would - trusting the free figures the
+    pool itself states - with containers that really use what they are given (34% of the pool each, 1 CPU each), and
+    keep checking. With sound bookkeeping two of them fit; bookkeeping that has handed something back twice admits a
+    third, and the pool then uses more memory than it has (C04) although nobody exceeds an allocation."""
+    if not w.probes_left:
+        return
+    asg = probe_assignments(w, sc)
+    if asg is None:
+        return
+    for k in range(3):
+        w.boundary_checks()
+        w.exec_phase([], asg if k == 0 else [])
+        if w.ended:
+            return
+    w.boundary_checks()
 
 
 def snapshot(w):
@@ -124,6 +178,11 @@ def scenarios(tier):
                     elif nb == "oom":
                         pipes.append(dict(prio="I", arrival=1, alloc=8, cpu=1, parents=[[], [0]], ops=[[dict(cpu=dur(1, tps), scaling="const", mem=1, read=0)],
                                                                                                        [dict(cpu=dur(2, tps), scaling="const", mem=9, read=0)]]))
+                    # three probe pipelines for the epilogue (never arrive during the run proper)
+                    share = 0.34 * pool_ram
+                    for _ in range(3):
+                        pipes.append(dict(prio="B", arrival=-1, probe=True, alloc=share, cpu=1, parents=[[]],
+                                          ops=[[dict(cpu=dur(2, tps), scaling="const", mem=share - 0.5, read=0)]]))
                     want = life * 3 + 3 * d + 6
                     horizon = min(want, 48)
                     out.append(dict(name=f"F2-tps{tps}-a{alloc}-{'x'.join(map(str, shape))}-{nb}", tps=tps, pools=1, cpus=3, ram=pool_ram,
